@@ -1,1 +1,7 @@
 import PytezosModel.Props.C18
+#print axioms C18.wfText_iff
+#print axioms C18.lex_format
+#print axioms C18.layout_irrelevant
+#print axioms C18.parse_toks
+#print axioms C18.roundtrip
+#print axioms C18.prim_tags_lex
